@@ -148,7 +148,9 @@ Record cyc := mkC {
   c_t     : Z;
   c_sel   : option Z;                   (* selector source ticks with this value *)
   c_ticks : list (option (list Z));     (* per target: payload of its tick *)
-  c_poke  : bool }.
+  c_poke  : bool;                       (* the unrelated poke source ticks *)
+  c_force : bool }.                     (* every consumer is evaluated anyway: the first cycle of the
+                                           nested graph that holds the consumers (op 3) *)
 
 Definition tick_of (c : cyc) (i : nat) : option (list Z) := nth i (c_ticks c) None.
 Definition ticks (c : cyc) (i : nat) : bool := match tick_of c i with Some _ => true | None => false end.
@@ -238,12 +240,13 @@ Record cout := mkO {
   o_cons   : list (nat * reading);      (* consumers below the reference that were evaluated *)
   o_ref    : bool }.                    (* the reference output ticked *)
 
-(* consumers: 0 active, any validity; 1 active + poke; 2 PASSIVE + poke; 3 active, must be valid *)
-Definition consumers (notified poke : bool) (r : reading) : list (nat * reading) :=
-  (if notified then [(0%nat, r)] else []) ++
-  (if notified || poke then [(1%nat, r)] else []) ++
-  (if poke then [(2%nat, r)] else []) ++
-  (if notified && r_valid r then [(3%nat, r)] else []).
+(* consumers: 0 active, any validity; 1 active + poke; 2 PASSIVE + poke; 3 active, must be valid.
+   [force]: a nested graph evaluates all its nodes in its first cycle (graph start schedules them). *)
+Definition consumers (notified poke force : bool) (r : reading) : list (nat * reading) :=
+  (if notified || force then [(0%nat, r)] else []) ++
+  (if notified || poke || force then [(1%nat, r)] else []) ++
+  (if poke || force then [(2%nat, r)] else []) ++
+  (if (notified || force) && r_valid r then [(3%nat, r)] else []).
 
 Definition directs (c : cyc) (ts : list target) : list (nat * reading) :=
   flat_map (fun i => if ticks c i then [(i, read_direct (get_t ts i))] else []) [0%nat; 1%nat; 2%nat].
@@ -262,7 +265,7 @@ Definition step (sh : shape) (op : Z) (st : state) (c : cyc) : state * cout :=
                     (match pub with Some _ => t | None => rlmt st end) l2 in
   (* phase 4: the consumers that were notified (or poked) are evaluated *)
   let r := read sh t ts l2 in
-  (st', mkO t (directs c ts) (consumers (bound_ticked || renot) (c_poke c) r)
+  (st', mkO t (directs c ts) (consumers (bound_ticked || renot) (c_poke c) (c_force c) r)
             (match pub with Some _ => true | None => false end)).
 
 Fixpoint run (sh : shape) (op : Z) (st : state) (cs : list cyc) : state * list cout :=
@@ -297,11 +300,15 @@ Fixpoint insert_uniq (t : Z) (l : list Z) : list Z :=
   | x :: r => if t <? x then t :: l else if t =? x then l else x :: insert_uniq t r
   end.
 
+(* op 3: the consumers live in a nested graph, whose first cycle (the start time: the
+   scripted sources are scheduled on start, so that root cycle always exists) evaluates them all *)
+Definition nested_consumers (op : Z) : bool := op =? 3.
+
 Definition times (op s e : Z) (w : wire) : list Z :=
   fold_left (fun acc l => match script_line l with
                           | Some (k, t, _) => if wired op k && (s <=? t) && (t <? e) then insert_uniq t acc else acc
                           | None => acc
-                          end) w [].
+                          end) w (if nested_consumers op && (s <? e) then [s] else []).
 
 (* the payload of source k at time t: the LAST such line wins (std::map assignment) *)
 Definition payload_at (k t : Z) (w : wire) : option (list Z) :=
@@ -310,10 +317,11 @@ Definition payload_at (k t : Z) (w : wire) : option (list Z) :=
                           | None => acc
                           end) w None.
 
-Definition cyc_at (op : Z) (w : wire) (t : Z) : cyc :=
+Definition cyc_at (op s : Z) (w : wire) (t : Z) : cyc :=
   mkC t (match payload_at 0 t w with Some p => Some (hdz p) | None => None end)
       [payload_at 1 t w; payload_at 2 t w; if op =? 1 then payload_at 3 t w else None]
-      (match payload_at 7 t w with Some _ => true | None => false end).
+      (match payload_at 7 t w with Some _ => true | None => false end)
+      (nested_consumers op && (t =? s)).
 
 Definition enc_kv (m : kv) : list Z := Z.of_nat (length m) :: flat_map (fun e => [fst e; snd e]) m.
 Definition enc_keys (l : list Z) : list Z := Z.of_nat (length l) :: l.
@@ -328,7 +336,7 @@ Definition enc_cout (o : cout) : wire :=
 
 Definition decode (w : wire) : shape * Z * list cyc :=
   let '(s, e, shz, op) := header w in
-  (shape_of shz, op, map (cyc_at op w) (times op s e w)).
+  (shape_of shz, op, map (cyc_at op s w) (times op s e w)).
 
 Definition run_ref (w : wire) : wire :=
   let '(sh, op, cs) := decode w in
